@@ -67,6 +67,14 @@ def random_round(run, name, seed, n, hosts, family, depth, steps, budget=8, self
     cp, tp = run.path(f"r_{name}.cases"), run.path(f"r_{name}.trace")
     direct = [h for h in hosts if h in ("direct", "stream")]
     core = [h for h in hosts if h not in ("direct", "stream")]
+    # the legacy capability API host can only express part of the family: its own generator family
+    if "core_legacy" in core:
+        core.remove("core_legacy")
+        lcp, ltp = run.path(f"r_{name}_legacy.cases"), run.path(f"r_{name}_legacy.trace")
+        lib.gen_cases(lcp, seed + 7, max(n // 3, 50), "core_legacy", "legacy", depth, steps, budget)
+        lib.run_harness(lcp, ltp)
+        lib.validate_trace(run, "Trace_Core", ltp, [f["id"] for f in lib.known_findings()["findings"]],
+                           label=f"random[{name}]@core_legacy")
     for grp, spec in ((direct, "Trace_Command"), (core, "Trace_Core")):
         if not grp:
             continue
@@ -135,12 +143,14 @@ def c02(run):
 
 
 def c05(run):
-    run.assumptions = BASE_ASSUME + ["the legacy capability host is checked by the C01 legacy round"]
+    run.assumptions = BASE_ASSUME + ["the legacy capability API host runs the subset it can express (event, notify, "
+                                     "chains, scripts without join handles, all/and as independent tasks)"]
     q = run.quick
     hosts = ["direct", "stream", "core", "bridge_bin", "bridge_json"]
     mc_and_replay(run, "cmd1", 5 if q else 6, ["ReadyClosed"], hosts, cap=1500 if q else 15000)
     mc_and_replay(run, "scripts", 6 if q else 8, ["ReadyClosed"], hosts, cap=1500 if q else 15000)
-    random_round(run, "hosts", run.seed, 1000 if q else 10000, hosts, "mixed", 3 if q else 4, 14, selftest=True)
+    random_round(run, "hosts", run.seed, 1000 if q else 10000, hosts + ["core_legacy"], "mixed", 3 if q else 4, 14,
+                 selftest=True)
     report_known(run)
 
 
@@ -148,7 +158,8 @@ def c01(run):
     run.assumptions = BASE_ASSUME
     q = run.quick
     mc_and_replay(run, "cmd1", 5 if q else 6, ["ReadyClosed"], ["core"], cap=3000 if q else 30000)
-    random_round(run, "core", run.seed, 1200 if q else 12000, ["core", "bridge_bin"], "mixed", 3, 20, selftest=True)
+    random_round(run, "core", run.seed, 1200 if q else 12000, ["core", "bridge_bin", "core_legacy"], "mixed", 3, 20,
+                 selftest=True)
     report_known(run)
 
 
